@@ -51,6 +51,10 @@ impl Parser {
         }
     }
 
+    pub fn check_recursive_types(&mut self) {
+        self.types.check_recursive_types(&mut self.errors)
+    }
+
     pub fn generics(&mut self) -> Option<TokenStream> {
         self.types.generics(&mut self.errors)
     }
